@@ -15,43 +15,28 @@ def Node.isQuiet : Node → Bool
   | .store .. => true
   | _ => false
 
-/-- the out-map of a quiet instruction claims nothing that the in-map did not claim -/
-theorem quiet_regOut_sub (cn : CNode) (inReg : AMap Reg) (inMem : AMap MemLoc)
-    (hq : cn.node.isQuiet = true) (hnz : NoZeroBase inReg) (k : Reg) (val : AVal)
-    (h : AMap.get (nodeRegOut cn inReg inMem) k = some val) : AMap.get inReg k = some val ∧ k ≠ 0 := by
-  unfold nodeRegOut at h
-  have hk0 : k ≠ 0 := by
-    intro e; subst e; rw [AMap.get_erase_self] at h; simp at h
-  rw [AMap.get_erase_ne _ k 0 (fun e => hk0 e.symm)] at h
-  refine ⟨?_, hk0⟩
-  have hcall : cn.node.callsTo = none := by
-    cases hn : cn.node <;> rw [hn] at hq <;> simp [Node.isQuiet, Node.callsTo] at hq ⊢
-    rename_i rd _ _; simp [hq]
-  have hfe : cn.node.isFunctionEntry = false := by
-    cases hn : cn.node <;> rw [hn] at hq <;> simp [Node.isQuiet, Node.isFunctionEntry] at hq ⊢
-  have hhe : cn.node.isHandlerFunctionEntry = false := by
-    cases hn : cn.node <;> rw [hn] at hq <;> simp [Node.isQuiet, Node.isHandlerFunctionEntry] at hq ⊢
-  have hpe : cn.node.isProgramEntry = false := by
-    cases hn : cn.node <;> rw [hn] at hq <;> simp [Node.isQuiet, Node.isProgramEntry] at hq ⊢
-  have hec : cn.node.isEcall = false := by
-    cases hn : cn.node <;> rw [hn] at hq <;> simp [Node.isQuiet, Node.isEcall] at hq ⊢
-  have hrm : cn.node.readsFromMemory = none := by
-    cases hn : cn.node <;> rw [hn] at hq <;> simp [Node.isQuiet, Node.readsFromMemory] at hq ⊢
-  have hgen : cn.node.genRegValue = none := by
-    cases hn : cn.node <;> rw [hn] at hq <;> simp [Node.isQuiet, Node.genRegValue] at hq ⊢
-  have hmath : mathResult cn.node inReg = none := by
-    cases hn : cn.node <;> rw [hn] at hq <;> simp [Node.isQuiet, mathResult] at hq ⊢
-  have hexp : ∀ out, ruleExpandAddressForLoad cn.node out inReg = out := by
-    intro out
-    cases hn : cn.node <;> rw [hn] at hq <;> simp [Node.isQuiet, ruleExpandAddressForLoad] at hq ⊢
-  have hpull : ∀ out, rulePullValueFromCsrMemory cn.node out cn.memOut = out := by
-    intro out; unfold rulePullValueFromCsrMemory; rw [hrm]
+theorem quiet_facts (n : Node) (hq : n.isQuiet = true) :
+    n.callsTo = none ∧ n.isFunctionEntry = false ∧ n.isHandlerFunctionEntry = false ∧
+    n.isProgramEntry = false ∧ n.isEcall = false ∧ n.genRegValue = none ∧
+    (∀ inn, mathResult n inn = none) ∧ n.noMemRead ∧
+    (n.writesTo = none ∨ ∃ w, n.writesTo = some w ∧ w.val = 0) := by
+  cases n <;> simp [Node.isQuiet] at hq
+  · -- jumpLink x0
+    rename_i i rd name t
+    refine ⟨by simp [Node.callsTo, hq], rfl, rfl, rfl, rfl, rfl, fun _ => rfl, ⟨rfl, fun _ _ => rfl⟩,
+      Or.inr ⟨rd, rfl, hq⟩⟩
+  · rename_i i rd rs1 imm t
+    exact ⟨rfl, rfl, rfl, rfl, rfl, rfl, fun _ => rfl, ⟨rfl, fun _ _ => rfl⟩, Or.inr ⟨rd, rfl, hq⟩⟩
+  · exact ⟨rfl, rfl, rfl, rfl, rfl, rfl, fun _ => rfl, ⟨rfl, fun _ _ => rfl⟩, Or.inl rfl⟩
+  · exact ⟨rfl, rfl, rfl, rfl, rfl, rfl, fun _ => rfl, ⟨rfl, fun _ _ => rfl⟩, Or.inl rfl⟩
+
+/-- the map before the rules of a quiet instruction is the in-map -/
+theorem quiet_preRules (cn : CNode) (inReg : AMap Reg) (hq : cn.node.isQuiet = true) :
+    preRules cn inReg = inReg := by
+  obtain ⟨hcall, hfe, hhe, hpe, hec, hgen, _, _, hw⟩ := quiet_facts cn.node hq
+  unfold preRules
   have hsig : ecallSignature { cn with regIn := inReg } = none := by
     unfold ecallSignature knownEcall; simp [hec]
-  -- destination: none, or x0
-  have hw : cn.node.writesTo = none ∨ ∃ w, cn.node.writesTo = some w ∧ w.val = 0 := by
-    cases hn : cn.node <;> rw [hn] at hq <;> simp [Node.isQuiet, Node.writesTo] at hq ⊢
-    all_goals exact hq
   have hkill : RegSet.toList cn.node.killReg = [] := by
     unfold Node.killReg
     simp only [hcall, hfe, Option.isSome_none, Bool.or_self, Bool.false_eq_true, if_false]
@@ -60,41 +45,39 @@ theorem quiet_regOut_sub (cn : CNode) (inReg : AMap Reg) (inMem : AMap MemLoc)
     · rw [hw]
       simp only [hw0]
       decide
-  simp only [hcall, hhe, hfe, hpe, hec, hsig, hgen, hexp, hpull, hkill, zeroConsts_id _ _ hnz, insertGen,
-    Option.isSome_none, Bool.false_eq_true, if_false, Bool.false_and, List.foldl_nil] at h
-  have hperf : ∀ out, rulePerformMathOps cn.node out inReg = out := by
-    intro out; unfold rulePerformMathOps; rw [hmath]; split <;> rfl
-  rw [hperf] at h
-  rcases hw with hw | ⟨w, hw, hw0⟩
-  · unfold ruleValueFromStack at h; rw [hw] at h; exact h
-  · rw [get_valueFromStack_ne _ _ _ w k hw (by rw [hw0]; exact hk0)] at h; exact h
+  simp only [hcall, hhe, hfe, hpe, hec, hsig, hgen, hkill, insertGen, Option.isSome_none,
+    Bool.false_eq_true, if_false, Bool.false_and, List.foldl_nil]
 
 /-- **quiet instructions are sound**: registers, entry values and label addresses unchanged ⇒
     every claim of the out-map holds after the instruction -/
 theorem quiet_transfer_sound (cn : CNode) (inReg : AMap Reg) (inMem : AMap MemLoc) (s s' : MState)
-    (hq : cn.node.isQuiet = true) (hnz : NoZeroBase inReg) (hs : Sound s inReg)
+    (hq : cn.node.isQuiet = true) (he0 : s.entry 0 = 0#32) (hs : Sound s inReg)
     (hreg : ∀ r, r ≠ 0 → s'.reg r = s.reg r) (hentry : s'.entry = s.entry) (haddr : s'.addr = s.addr) :
     Sound s' (nodeRegOut cn inReg inMem) := by
-  intro k val h
-  obtain ⟨hin, hk0⟩ := quiet_regOut_sub cn inReg inMem hq hnz k val h
-  have hold := hs k val hin
-  cases val with
-  | const c => show s'.reg k = c; rw [hreg k hk0]; exact hold
-  | addr l => show s'.reg k = s'.addr l; rw [hreg k hk0, haddr]; exact hold
-  | ors r0 o => show s'.reg k = s'.entry r0 + o; rw [hreg k hk0, hentry]; exact hold
-  | _ => trivial
-
+  obtain ⟨_, _, _, _, _, _, hmath, hnm, hw⟩ := quiet_facts cn.node hq
+  apply rules_sound cn inReg inMem s' hnm (by rw [hentry]; exact he0)
+  · rw [quiet_preRules cn inReg hq]
+    intro k val hk0 hget
+    exact claim_frame s s' k val (hreg k hk0) hentry haddr (hs k val hget)
+  · intro rd x hwr hrd0 _
+    rcases hw with hw | ⟨w, hw, hw0⟩
+    · rw [hw] at hwr; simp at hwr
+    · rw [hw] at hwr
+      have : rd = w := (Option.some.inj hwr).symm
+      subst this
+      exact absurd hw0 hrd0
+  · intro rd v _ _ hm
+    rw [hmath] at hm; simp at hm
 
 /-! ### along execution paths -/
 
 /-- the facts of a finished run, as far as the register claims are concerned: maps have one
-    entry per key, no claim is relative to x0, and at every visited node the in-map is the meet
+    entry per key, and at every visited node the in-map is the meet
     of the out-maps of its visited predecessors and the out-map is the transfer of the in-map
     (equalities as finite maps) -/
 structure GoodFacts (g : Cfg) (V : List Nat) : Prop where
   wfIn : ∀ i, AMap.WF (g.get i).regIn
   wfOut : ∀ i, AMap.WF (g.get i).regOut
-  nz : ∀ i, NoZeroBase (g.get i).regIn
   vlt : ∀ i, i ∈ V → i < g.nodes.size
   eqIn : ∀ i, i ∈ V → ∀ k, AMap.get (g.get i).regIn k =
     AMap.get (meetOver (((g.get i).prevs.filter V.contains).map fun p => (g.get p).regOut)) k
@@ -124,20 +107,26 @@ inductive Exec (g : Cfg) (V : List Nat) (i0 : Nat) (s0 : MState) : Nat → MStat
     any branching and looping, through register-to-register instructions, branches, jumps and
     stores — every register claim attached to the node about to execute holds in the machine
     state. -/
-theorem exec_sound (g : Cfg) (V : List Nat) (hf : GoodFacts g V) (i0 : Nat) (s0 : MState)
-    (h0 : Sound s0 (g.get i0).regIn) (j : Nat) (s' : MState) (he : Exec g V i0 s0 j s') :
-    Sound s' (g.get j).regIn := by
+theorem exec_sound_inv (g : Cfg) (V : List Nat) (hf : GoodFacts g V) (i0 : Nat) (s0 : MState)
+    (h0 : Sound s0 (g.get i0).regIn) (h0e : s0.entry 0 = 0#32) (j : Nat) (s' : MState)
+    (he : Exec g V i0 s0 j s') : Sound s' (g.get j).regIn ∧ s'.entry 0 = 0#32 := by
   induction he with
-  | start => exact h0
+  | start => exact ⟨h0, h0e⟩
   | step i j s s' _ hstep hi hj hedge ih =>
+    obtain ⟨ihs, ihe⟩ := ih
+    have hent : s'.entry 0 = 0#32 := by
+      cases hstep with
+      | plain rd v _ _ _ hp => rw [hp.entry]; exact ihe
+      | quiet _ _ hentry _ => rw [hentry]; exact ihe
     -- out of node i
     have hout : Sound s' (g.get i).regOut := by
       apply sound_of_get_eq s' _ _ (hf.eqOut i hi)
       cases hstep with
       | plain rd v hval hrd hz hp =>
-        exact plain_transfer_sound (g.get i) _ _ s s' rd v hval hrd hz (hf.wfIn i) (hf.nz i) ih hp
+        exact plain_transfer_sound (g.get i) _ _ s s' rd v hval hrd hz ihe ihs hp
       | quiet hq hreg hentry haddr =>
-        exact quiet_transfer_sound (g.get i) _ _ s s' hq (hf.nz i) ih hreg hentry haddr
+        exact quiet_transfer_sound (g.get i) _ _ s s' hq ihe ihs hreg hentry haddr
+    refine ⟨?_, hent⟩
     -- into node j: the meet over the visited predecessors, of which i is one
     apply sound_of_get_eq s' _ _ (hf.eqIn j hj)
     apply meetOver_sound s' _ _ (g.get i).regOut _ hout
@@ -149,6 +138,10 @@ theorem exec_sound (g : Cfg) (V : List Nat) (hf : GoodFacts g V) (i0 : Nat) (s0 
       rw [List.mem_filter]
       exact ⟨hedge, by simpa using hi⟩
 
+theorem exec_sound (g : Cfg) (V : List Nat) (hf : GoodFacts g V) (i0 : Nat) (s0 : MState)
+    (h0 : Sound s0 (g.get i0).regIn) (h0e : s0.entry 0 = 0#32) (j : Nat) (s' : MState)
+    (he : Exec g V i0 s0 j s') : Sound s' (g.get j).regIn :=
+  (exec_sound_inv g V hf i0 s0 h0 h0e j s' he).1
 
 /-! ### the hypothesis of `exec_sound` is decidable: `goodFactsB` (run by the driver on every
     generated program, stage `good`) implies `GoodFacts` -/
@@ -195,16 +188,6 @@ theorem keysNodup_wf {κ : Type} [DecidableEq κ] (m : AMap κ) (h : keysNodup m
     intro q hq he
     exact h.1 q hq he
 
-theorem noZeroBaseB_sound (m : AMap Reg) (h : noZeroBaseB m = true) : NoZeroBase m := by
-  unfold noZeroBaseB at h
-  simp only [List.all_eq_true] at h
-  intro p hp
-  have := h p hp
-  cases hv : p.2 with
-  | ors r o => rw [hv] at this; simpa using this
-  | rs r o => rw [hv] at this; simpa using this
-  | _ => trivial
-
 theorem goodFactsB_sound (g : Cfg) (V : List Nat) (hv : V.all (· < g.nodes.size) = true)
     (h : goodFactsB g V = true) : GoodFacts g V := by
   unfold goodFactsB at h
@@ -219,19 +202,15 @@ theorem goodFactsB_sound (g : Cfg) (V : List Nat) (hv : V.all (· < g.nodes.size
     have : g.get i = default := by
       simp [Cfg.get, hi]
     rw [this]; exact ⟨rfl, rfl⟩
-  refine ⟨?_, ?_, ?_, hvlt, ?_, ?_⟩
+  refine ⟨?_, ?_, hvlt, ?_, ?_⟩
   · intro i
     by_cases hi : i < g.nodes.size
-    · exact keysNodup_wf _ (h i hi).1.1.1
+    · exact keysNodup_wf _ (h i hi).1.1
     · rw [(hdef i hi).1]; simp [AMap.WF]
   · intro i
     by_cases hi : i < g.nodes.size
-    · exact keysNodup_wf _ (h i hi).1.1.2
+    · exact keysNodup_wf _ (h i hi).1.2
     · rw [(hdef i hi).2]; simp [AMap.WF]
-  · intro i
-    by_cases hi : i < g.nodes.size
-    · exact noZeroBaseB_sound _ (h i hi).1.2
-    · rw [(hdef i hi).1]; intro p hp; simp at hp
   · intro i hi k
     have := (h i (hvlt i hi)).2
     rcases this with hc | hc
